@@ -149,8 +149,9 @@ theorem C03_closed (so : StrictOrder kind.lt) (hH : Hash32 H) (P : Bytes → Pro
 
 /-- **C09, closed** (Sync mode): from an empty directory whose files (a LOCK file at most) claim no
     more synced bytes than they have — the first `open`, then ANY history of at most 2^15 - 3
-    operations on reasonable keys, each possibly cut after any number of filesystem events by a full
-    power loss and followed by `open`: everything runs to completion and every key reads a content
+    operations on reasonable keys, each possibly cut after any number of filesystem events by a
+    power loss (ANY choice of the files that lose their unsynced bytes, per loss) and followed by the
+    reboot and `open`: everything runs to completion and every key reads a content
     reachable by applying each completed operation and applying-or-not each interrupted one. -/
 theorem C09_closed (so : StrictOrder kind.lt) (hH : Hash32 H) (P : Bytes → Prop)
     (hinj : Inj H sz P) (cfg : Config) (hk : cfg.kind = kind) (hn : cfg.N = N) (hsync : cfg.sync = true)
